@@ -31,7 +31,7 @@ REPO = Path(os.environ.get("NESSAI_REPO", "/repo"))
 MODEL_BIN = LEAN / ".lake" / "build" / "bin" / "nessai_model"
 ALLOWED_AXIOMS = {"propext", "Classical.choice", "Quot.sound"}
 FORBIDDEN = re.compile(
-    r"\bsorry\b|\badmit\b|^\s*axiom\s|native_decide|bv_decide|implemented_by|\bunsafe\s|maxHeartbeats\s+0\b"
+    r"\bsorry\b|\badmit\b|^\s*axiom\s|native_decide|bv_decide|implemented_by|\bunsafe\s|maxHeartbeats\s+0\b|@\[extern|@\[csimp"
 )
 
 
@@ -224,6 +224,13 @@ class Check:
             f"cd lean && lake build {' '.join(targets)} && lake env lean .audit/{self.prop}.lean"
             "  (#print axioms for every theorem of " + props_module + ")"
         )
+        pinned = LEAN / "obligations.json"
+        if pinned.exists():
+            want = json.loads(pinned.read_text()).get(self.prop, [])
+            for name in want:
+                if name not in self.obligations:
+                    self.obligations.append(name)
+                    self.broken(f"theorem {name} is pinned as an obligation of {self.prop} but is no longer in {props_path.name}")
         bad = self.hygiene()
         if bad:
             self.broken("hygiene: forbidden token in Lean sources", "\n".join(bad))
